@@ -81,6 +81,18 @@ theorem r1cs_abs_eq (x : ℕ) : Gen.Formulas.r1cs_abs x = fabs x := by
   unfold Gen.Formulas.r1cs_abs fabs isNeg
   cases h : (x % 2 == 1) <;> simp_all
 
+/-- witness allocation (`AllocVar<Element>`, the `AllocationMode::Witness` arm): curve equation of the offered coordinates,
+in-circuit decoding of the natively computed encoding, equality of the decoded variable with the offered point.  The
+natively computed encoding is generalised first, so that the kernel never meets the square-root routine. -/
+theorem r1cs_alloc_witness_eq (px py : ℕ) (h : R1cs.Hint) :
+    Gen.Formulas.r1cs_alloc_witness px py h = R1cs.allocWitness px py h := by
+  first
+  | (unfold Gen.Formulas.r1cs_alloc_witness; with_reducible rfl)            -- untranslated: the fallback
+  | (unfold Gen.Formulas.r1cs_alloc_witness R1cs.allocWitness
+     generalize ((Ext.ofAffine (px, py)).encodeField sqrtRatioArk).getD 0 = fe
+     simp only [r1cs_decompress_eq, r1cs_is_eq_eq, R1cs.isEq]
+     try (generalize R1cs.decompress fe h = o; rcases o with ⟨sat, x, y⟩; with_reducible rfl))
+
 /-- on a constant: no constraint, the pair of constants computed out of circuit (defect repaired by 05db65d) -/
 theorem r1cs_isqrt_const (x : ℕ) (h : R1cs.Hint) :
     Gen.Formulas.r1cs_isqrt true x h = (true, h.getD (R1cs.honest x)) := by
@@ -105,6 +117,9 @@ theorem r1csDecompress_eq : @r1csDecompress = R1cs.decompress := by funext s h; 
 theorem r1csElligator_eq : @r1csElligator = R1cs.elligator := by funext r h; exact Formulas.r1cs_elligator_eq r h
 theorem r1csIsEq_eq : @r1csIsEq = R1cs.isEq := by funext a b; exact Formulas.r1cs_is_eq_eq a.1 a.2 b.1 b.2
 theorem r1csIsqrt_eq : @r1csIsqrt = R1cs.isqrt := by funext x h; exact Formulas.r1cs_isqrt_eq x h
+def r1csAllocWitness (px py : ℕ) (h : R1cs.Hint) : Bool × ℕ × ℕ := Gen.Formulas.r1cs_alloc_witness px py h
+theorem r1csAllocWitness_eq : @r1csAllocWitness = R1cs.allocWitness := by
+  funext px py h; exact Formulas.r1cs_alloc_witness_eq px py h
 theorem r1csIsqrtConst_eq (x : ℕ) : r1csIsqrtConst x = (true, R1cs.honest x) := by
   unfold r1csIsqrtConst; rw [Formulas.r1cs_isqrt_const]; rfl
 
